@@ -55,6 +55,9 @@ type indexKVStore struct {
 	// cache
 	bucketCache *expirable.LRU[uint32, *model.TrieBucket]
 
+	// switchAgain is set when a flush is prepared while the immutable store of a failed flush is still there
+	switchAgain bool
+
 	lock sync.RWMutex
 }
 
@@ -240,6 +243,10 @@ func (s *indexKVStore) PrepareFlush() {
 	if s.immutable == nil || s.immutable.IsEmpty() {
 		s.immutable = s.mutable
 		s.mutable = imap.NewIntMap[map[string]uint32]()
+	} else {
+		// NOTE: immutable store of a failed flush is still there, it is flushed first by the coming flush,
+		// then need switch/flush again, else what was written since then isn't part of the coming flush.
+		s.switchAgain = true
 	}
 }
 
@@ -252,6 +259,25 @@ func (s *indexKVStore) needFlush() bool {
 }
 
 func (s *indexKVStore) Flush() (err error) {
+	if err = s.flushImmutable(); err != nil {
+		return err
+	}
+	s.lock.Lock()
+	switchAgain := s.switchAgain
+	if switchAgain {
+		s.switchAgain = false
+		s.immutable = s.mutable
+		s.mutable = imap.NewIntMap[map[string]uint32]()
+	}
+	s.lock.Unlock()
+	if switchAgain {
+		return s.flushImmutable()
+	}
+	return nil
+}
+
+// flushImmutable flushes the immutable store.
+func (s *indexKVStore) flushImmutable() (err error) {
 	if !s.needFlush() {
 		return nil
 	}
